@@ -28,14 +28,23 @@ import (
 // srcWatch is a controllable source with the semantics of a real StreamWatcher:
 // unbuffered result channel, Stop() makes the producer give up and close it.
 type srcWatch struct {
-	ch        chan watch.Event
-	done      chan struct{}
+	ch   chan watch.Event
+	done chan struct{}
+	// lazy: after Stop the producer keeps its channel open until the harness releases it (a source that
+	// closes late, or a ProxyWatcher whose producer owns the channel): the relay must not depend on the
+	// source closing to terminate and to close its own result channel
+	lazy      bool
+	release   chan struct{}
+	relOnce   sync.Once
 	once      sync.Once
 	mu        sync.Mutex
 	stopCalls int
 }
 
-func newSrc() *srcWatch { return &srcWatch{ch: make(chan watch.Event), done: make(chan struct{})} }
+func newSrc() *srcWatch {
+	return &srcWatch{ch: make(chan watch.Event), done: make(chan struct{}), release: make(chan struct{})}
+}
+func (s *srcWatch) releaseNow() { s.relOnce.Do(func() { close(s.release) }) }
 func (s *srcWatch) Stop() {
 	s.mu.Lock()
 	s.stopCalls++
@@ -50,6 +59,8 @@ type c20Case struct {
 	Events []string `json:"events"` // type names
 	Plan   string   `json:"consumer_plan"`
 	K      int      `json:"receive_before_stop"`
+	// the source keeps its channel open after Stop until the end of the case
+	LazySource bool `json:"source_closes_late"`
 }
 
 var c20Types = []watch.EventType{watch.Added, watch.Modified, watch.Deleted, watch.Bookmark, watch.Error}
@@ -110,6 +121,8 @@ func runC20Case(c c20Case) (viol [][2]string, inconclusive string) {
 		return nil, "a relay goroutine of an earlier case is still around"
 	}
 	src := newSrc()
+	src.lazy = c.LazySource
+	defer src.releaseNow()
 	pc := pcfake.NewSimpleClientset()
 	pc.PrependWatchReactor("statefulsets", func(a ktesting.Action) (bool, watch.Interface, error) { return true, src, nil })
 	hc := helper.NewHijackClient(kubefake.NewSimpleClientset(), pc)
@@ -138,6 +151,9 @@ func runC20Case(c c20Case) (viol [][2]string, inconclusive string) {
 			case src.ch <- ev:
 				n++
 			case <-src.done:
+				if src.lazy {
+					<-src.release
+				}
 				return
 			}
 		}
@@ -235,7 +251,7 @@ func runC20Case(c c20Case) (viol [][2]string, inconclusive string) {
 		time.Sleep(5 * time.Millisecond)
 	}
 	if leaked {
-		bad("goroutine-leak", "plan %s: relay goroutine still present and parked after the consumer finished: %v", c.Plan, states)
+		bad("goroutine-leak", "plan %s: relay goroutine still present after the consumer finished: %v", c.Plan, states)
 	}
 	// sequence oracle
 	for i, ev := range got {
@@ -290,6 +306,7 @@ func runC20Case(c c20Case) (viol [][2]string, inconclusive string) {
 	if src.stops() == 0 {
 		bad("source-not-stopped", "plan %s: the underlying watch was never stopped", c.Plan)
 	}
+	src.releaseNow()
 	select {
 	case <-prodDone:
 	case <-time.After(5 * time.Second):
@@ -306,7 +323,7 @@ func runC20(ctx *Ctx) *Result {
 			continue
 		}
 		r := rand.New(rand.NewSource(ctx.caseSeed(i)))
-		c := c20Case{Index: i, Plan: c20Plans[i%len(c20Plans)]}
+		c := c20Case{Index: i, Plan: c20Plans[i%len(c20Plans)], LazySource: (i/len(c20Plans))%2 == 1}
 		n := r.Intn(6)
 		if i < 400 {
 			n = i % 6
@@ -324,10 +341,13 @@ func runC20(ctx *Ctx) *Result {
 		}
 		res.Evaluations++
 		res.Stats["plan_"+c.Plan]++
+		if c.LazySource && c.Plan != "drain-until-closed" {
+			res.Stats["stops_with_source_closing_late"]++
+		}
 		for _, e := range c.Events {
 			res.Stats["events_"+e]++
 		}
-		res.sig(fmt.Sprint(c.Events, c.Plan, c.K))
+		res.sig(fmt.Sprint(c.Events, c.Plan, c.K, c.LazySource))
 		res.sample(3, c)
 		vs, inc := runC20Case(c)
 		if inc != "" {
@@ -360,9 +380,9 @@ func runC20(ctx *Ctx) *Result {
 
 func init() {
 	register(&Check{Prop: "C20", Level: "exploration",
-		Rule:   "event sequences of length 0..5 over {Added, Modified, Deleted, Bookmark, Error} sent through a controllable unbuffered source behind the real hijack client's Watch, crossed with 8 consumer plans (drain; receive k then Stop then drain / abandon; Stop first; Stop twice; Stop while the relay is parked with an event in flight, decided from a goroutine dump; Stop concurrently with draining); oracles: relayed sequence = sent prefix (type, name, resourceVersion, payload type), Error events relayed with their Status, result channel closed, source stopped, no goroutine left in hijackWatch.receive (goroutine dump); child processes with production crash behaviour: a dead child is a violation witnessed by the logged case; distinct = distinct (sequence, plan, k)",
+		Rule:   "event sequences of length 0..5 over {Added, Modified, Deleted, Bookmark, Error} sent through a controllable unbuffered source behind the real hijack client's Watch, crossed with a source that closes its channel promptly on Stop or only at the end of the case (late-closing / producer-owned channel), and with 8 consumer plans (drain; receive k then Stop then drain / abandon; Stop first; Stop twice; Stop while the relay is parked with an event in flight, decided from a goroutine dump; Stop concurrently with draining); oracles: relayed sequence = sent prefix (type, name, resourceVersion, payload type), Error events relayed with their Status, result channel closed, source stopped, no goroutine left in hijackWatch.receive (goroutine dump); child processes with production crash behaviour: a dead child is a violation witnessed by the logged case; distinct = distinct (sequence, plan, k)",
 		Assume: []string{"goroutine-leak verdict: the relay is still parked (chan send / chan receive / select) 3s after every other party finished and nobody holds its channels; wall-clock waits are watchdogs only"},
 		Cases:  scenarioCases(8000, 120000), Run: runC20, DeathIsViolation: true,
 		Race: runC20, RaceCases: scenarioCases(1600, 16000),
-		Floors: []string{"events_ERROR", "events_BOOKMARK", "plan_recv-k-wait-parked-stop-abandon", "plan_stop-twice-drain"}})
+		Floors: []string{"events_ERROR", "events_BOOKMARK", "plan_recv-k-wait-parked-stop-abandon", "plan_stop-twice-drain", "stops_with_source_closing_late"}})
 }
